@@ -123,15 +123,19 @@ func (s *Server) Serve(l net.Listener) error {
 		// to us to end the connection.
 		conn := newConn(c, s)
 		s.locker.Lock()
-		s.conns[conn] = struct{}{}
-		s.locker.Unlock()
 		select {
 		case <-s.done:
+			// Close or Shutdown has begun (they do so under the lock): the
+			// connection is not served, and nobody is made to wait for it.
+			s.locker.Unlock()
 			conn.Close()
+			return nil
 		default:
 		}
-
+		s.conns[conn] = struct{}{}
 		s.wg.Add(1)
+		s.locker.Unlock()
+
 		go func() {
 			defer s.wg.Done()
 
@@ -261,15 +265,16 @@ func (s *Server) ListenAndServeTLS() error {
 // Close returns any error returned from closing the server's underlying
 // listener(s).
 func (s *Server) Close() error {
+	s.locker.Lock()
 	select {
 	case <-s.done:
+		s.locker.Unlock()
 		return ErrServerClosed
 	default:
 		close(s.done)
 	}
 
 	var err error
-	s.locker.Lock()
 	for _, l := range s.listeners {
 		if lerr := l.Close(); lerr != nil && err == nil {
 			err = lerr
@@ -292,15 +297,16 @@ func (s *Server) Close() error {
 // Shutdown returns the context's error, otherwise it returns any
 // error returned from closing the Server's underlying Listener(s).
 func (s *Server) Shutdown(ctx context.Context) error {
+	s.locker.Lock()
 	select {
 	case <-s.done:
+		s.locker.Unlock()
 		return ErrServerClosed
 	default:
 		close(s.done)
 	}
 
 	var err error
-	s.locker.Lock()
 	for _, l := range s.listeners {
 		if lerr := l.Close(); lerr != nil && err == nil {
 			err = lerr
